@@ -8,6 +8,7 @@ type tagIncludeNode struct {
 	filename          string
 	withPairs         map[string]IEvaluator
 	ifExists          bool
+	origin            *Template // the template the tag is written in (base for relative names of a lazy include)
 }
 
 func (node *tagIncludeNode) Execute(ctx *ExecutionContext, writer TemplateWriter) *Error {
@@ -42,7 +43,13 @@ func (node *tagIncludeNode) Execute(ctx *ExecutionContext, writer TemplateWriter
 		}
 
 		// Get include-filename
-		includedFilename := ctx.template.set.resolveFilename(ctx.template, filename.String())
+		// A relative name is relative to the template that contains the tag, not
+		// to the template the execution started with (the root of an inheritance chain).
+		base := ctx.template
+		if node.origin != nil {
+			base = node.origin
+		}
+		includedFilename := ctx.template.set.resolveFilename(base, filename.String())
 
 		includedTpl, err2 := ctx.template.set.FromFile(includedFilename)
 		if err2 != nil {
@@ -113,6 +120,7 @@ func tagIncludeParser(doc *Parser, start *Token, arguments *Parser) (INodeTag, *
 		}
 		includeNode.filenameEvaluator = filenameEvaluator
 		includeNode.lazy = true
+		includeNode.origin = doc.template
 		includeNode.ifExists = arguments.Match(TokenIdentifier, "if_exists") != nil // "if_exists" flag
 	}
 
